@@ -115,29 +115,46 @@ theorem exFld_hdr (f : ExFld) (hf : f.Valid) : f.toFld.id < 65536 ∧ f.toFld.t 
   | unknown id t v => exact ⟨hf.1.1, hf.1.2.1⟩
   | _ => simp [ExFld.toFld, fStr, fI32, TT.STRING, TT.I32]
 
-theorem T_I32_eq : UInt8.ofNat Facts.tI32 = 8 := by decide
+/-- the switch conditions regenerated from the source are the IDL's (1, STRING) and (2, I32) -/
+theorem appExcReadCases_eq : Facts.appExcReadCases = [(1, 11), (2, 8)] := by decide
+
+theorem toI8_eq_small (t : UInt8) (c : Nat) (hc : c < 128) : toI8 t.toNat = (c : Int) ↔ t = UInt8.ofNat c := by
+  rw [u8_eq_iff t c (by omega)]
+  have := t.toNat_lt
+  unfold toI8; split <;> omega
+
+/-- the hand-written switch of ApplicationException.FastRead with the regenerated conditions spelled out -/
+theorem exBody_eq (e : AppEx) (b : Bytes) (off fid : Nat) (ftyp : UInt8) (hf : fid < 65536) :
+    exBody e b off fid ftyp =
+      if fid = 1 ∧ ftyp = 11 then caseStr (fun e s => { e with msg := s }) e b off
+      else if fid = 2 ∧ ftyp = 8 then caseI32 (fun e v => { e with typ := v }) e b off
+      else caseSkip e b off ftyp := by
+  have h1 := toI16_eq_small fid 1 hf (by omega)
+  have h2 := toI16_eq_small fid 2 hf (by omega)
+  have t11 := toI8_eq_small ftyp 11 (by omega)
+  have t8 := toI8_eq_small ftyp 8 (by omega)
+  simp only [exBody, appExcReadCases_eq]
+  simp only [show (1 : Int) = ((1 : Nat) : Int) from rfl, show (2 : Int) = ((2 : Nat) : Int) from rfl,
+    show (11 : Int) = ((11 : Nat) : Int) from rfl, show (8 : Int) = ((8 : Nat) : Int) from rfl, h1, h2, t11, t8]
+  rfl
 
 theorem exBody_field (e : AppEx) (f : ExFld) (pre more : Bytes) (hf : f.Valid) :
     exBody e (pre ++ f.toFld.val ++ more) pre.length f.toFld.id f.toFld.t
       = .ok ⟨ExFld.apply e f, pre.length + f.toFld.val.length, none⟩ := by
   cases f with
   | msg s =>
-    simp only [ExFld.toFld, fStr, exBody, T_STRING_eq]
-    rw [if_pos (by decide)]
+    simp only [ExFld.toFld, fStr, TT.STRING]
+    rw [exBody_eq _ _ _ _ _ (by omega), if_pos (by decide)]
     exact caseStr_enc _ e pre more s _ rfl hf
   | typ v =>
-    simp only [ExFld.toFld, fI32, exBody, T_STRING_eq, T_I32_eq, TT.I32, TT.STRING]
-    rw [if_neg (by decide), if_pos (by decide)]
+    simp only [ExFld.toFld, fI32, TT.I32]
+    rw [exBody_eq _ _ _ _ _ (by omega), if_neg (by decide), if_pos (by decide)]
     exact caseI32_enc _ e pre more v _ rfl hf
   | unknown id t v =>
     obtain ⟨⟨hid, ht, hv⟩, hk⟩ := hf
-    simp only [ExFld.toFld, exBody, T_STRING_eq, T_I32_eq]
-    simp only [ExFld.isKnown, not_or] at hk
-    have h1 : ¬ (toI16 id = 1 ∧ t = TT.STRING) := by
-      rw [show (1 : Int) = ((1 : Nat) : Int) from rfl, toI16_eq_small id 1 hid (by omega)]; exact hk.1
-    have h2 : ¬ (toI16 id = 2 ∧ t = 8) := by
-      rw [show (2 : Int) = ((2 : Nat) : Int) from rfl, toI16_eq_small id 2 hid (by omega)]; exact hk.2
-    rw [if_neg h1, if_neg h2]
+    simp only [ExFld.toFld]
+    simp only [ExFld.isKnown, TT.STRING, TT.I32, not_or] at hk
+    rw [exBody_eq _ _ _ _ _ hid, if_neg hk.1, if_neg hk.2]
     exact caseSkip_enc e pre more v t _ rfl hv
 
 theorem exLoop_fields : ∀ (fs : List ExFld) (pre rest : Bytes) (e : AppEx) (fuel : Nat),
